@@ -7,6 +7,8 @@ from mcx.harness import *  # noqa
 from mcx.common import Report, pmap, seed
 from tradingenv.contracts import ETF, ES, FutureChain, Index
 
+from mcx.harness import hidden_exchange
+
 LEVEL = "model_checking"
 NAN = float("nan")
 T_EARLY = T0 - timedelta(hours=1)
@@ -213,7 +215,7 @@ def search(first_ops, depth):
             if msgs:
                 res["violations"].append((nh, "; ".join(msgs[:3])))
                 continue
-            k = state_key(nbooks, nnow)
+            k = state_key(nbooks, nnow) + (hidden_exchange(ex),)     # + attributes the pinned Exchange does not have (caches)
             res["outcomes"].add(hash(k[0]))
             if k in seen:
                 continue
